@@ -408,4 +408,140 @@ theorem usage_errors_reported_on_stderr (t : Tool) (g : Getopt) (lib : Lib) (w :
       cases h
       cases hc
 
+/-! ### from symbolic lines to the bytes on stderr -/
+
+/-- "a line starting with the tool name and 'failed:'". -/
+def failedPrefix (t : Tool) : Bytes := toolName t ++ b!" failed:"
+
+/-- A message of the option scanner (`argv[0]: …`) does not start with "<tool> failed:" unless
+    `argv[0]` itself starts with "<tool> ". -/
+theorem getopt_line_not_failed (t : Tool) (a0 r : Bytes) (h0 : ¬ (toolName t ++ b!" ") <+: a0) :
+    ¬ failedPrefix t <+: (a0 ++ b!": " ++ r) := by
+  intro hp
+  have hT : (toolName t ++ b!" ") <+: failedPrefix t := by
+    cases t <;> exact ⟨b!"failed:", rfl⟩
+  have hlenT : (toolName t ++ b!" ").length = 10 := by cases t <;> rfl
+  have hlenP : (failedPrefix t).length = 17 := by cases t <;> rfl
+  by_cases hlen : 10 ≤ a0.length
+  · apply h0
+    have h1 : (toolName t ++ b!" ") <+: (a0 ++ b!": " ++ r) := hT.trans hp
+    rw [List.append_assoc] at h1
+    exact List.prefix_of_prefix_length_le h1 (List.prefix_append a0 _) (by omega)
+  · have h2 : (a0 ++ b!": ") <+: failedPrefix t :=
+      List.prefix_of_prefix_length_le (List.prefix_append _ r) hp (by simp; omega)
+    have hi : a0.length < (a0 ++ b!": ").length := by simp
+    have h3 := h2.getElem hi
+    have h4 : (a0 ++ b!": ")[a0.length] = 58 := by simp
+    have key : ∀ i, (h : i < (failedPrefix t).length) → i ≤ 9 → (failedPrefix t)[i] ≠ 58 := by
+      cases t <;> decide
+    exact key a0.length (by omega) (by omega) (h3 ▸ h4)
+
+/-- Every line a run prints on stderr is of one of these kinds. -/
+theorem stderr_line_kinds (t : Tool) (g : Getopt) (lib : Lib) (w : World) (argv : Argv) (hn : NulFree argv)
+    (o : Out) (h : tool t g lib w argv = .done o) :
+    ∀ l ∈ o.stderr,
+      (∃ a0 r, argv.head? = some a0 ∧ l = .getopt (a0 ++ b!": " ++ r)) ∨ l = .help ∨ l = .missingArgs ∨
+      (∃ n, l = .failedOpenIn n) ∨ (∃ n, l = .readError n) ∨ (∃ x, l = .failed t x) ∨ l = .succeeded t ∨
+      (∃ q, l = .failedOpenOut q) ∨ (∃ q, l = .writeError q) := by
+  obtain ⟨sr, _, hcase⟩ := run_cases t g lib w argv hn
+  rcases hcase with ⟨pre, ls, hg, hu, h'⟩ | ⟨pre, p, output, i, hg, _, h'⟩
+  · rw [h'] at h; cases h
+    intro l hl
+    rcases List.mem_append.mp hl with hl | hl
+    · exact .inl (hg l hl)
+    · rcases hu with rfl | rfl | ⟨n, rfl⟩ | ⟨n, rfl⟩
+      · simp at hl; simp [hl]
+      · simp at hl; rcases hl with rfl | rfl <;> simp
+      · simp at hl; simp [hl]
+      · simp at hl; simp [hl]
+  · rw [h'] at h
+    cases hl : lib.conv p i with
+    | error c =>
+      rw [conv_failure t lib w p output i pre c hl] at h
+      cases h
+      intro l hl
+      rcases List.mem_append.mp hl with hl | hl
+      · exact .inl (hg l hl)
+      · rw [List.mem_singleton] at hl
+        simp [hl]
+    | ok res =>
+      obtain ⟨so, files, tail, he, _, _, htail⟩ := conv_success_cases t lib w p output i pre res hl
+      rw [he] at h
+      cases h
+      intro l hl
+      rcases List.mem_append.mp hl with hl | hl
+      · exact .inl (hg l hl)
+      · rcases List.mem_cons.mp hl with hl | hl
+        · simp [hl]
+        · rcases htail l hl with ⟨q, hq⟩ | ⟨q, hq⟩ <;> simp [hq]
+
+/-- `failed_line_iff_failure` on the bytes: provided `argv[0]` does not itself begin with "<tool> ",
+    a stderr line starts with "<tool> failed:" exactly when it is the failure line. -/
+theorem rendered_failed_prefix_iff (t : Tool) (g : Getopt) (lib : Lib) (w : World) (argv : Argv)
+    (hn : NulFree argv) (o : Out) (h : tool t g lib w argv = .done o)
+    (h0 : ∀ a0, argv.head? = some a0 → ¬ (toolName t ++ b!" ") <+: a0) :
+    ∀ l ∈ o.stderr, (failedPrefix t <+: l.render ↔ ∃ x, l = .failed t x) := by
+  intro l hl
+  have hno : ∀ (c : UInt8) (rest : Bytes), c ≠ 119 → c ≠ 120 → ¬ failedPrefix t <+: (c :: rest) := by
+    intro c rest h1 h2 hp
+    cases t <;> simp [failedPrefix, toolName, List.cons_prefix_cons] at hp
+    · exact h1 hp.1.symm
+    · exact h2 hp.1.symm
+  rcases stderr_line_kinds t g lib w argv hn o h l hl with
+    ⟨a0, r, hh, rfl⟩ | rfl | rfl | ⟨n, rfl⟩ | ⟨n, rfl⟩ | ⟨x, rfl⟩ | rfl | ⟨q, rfl⟩ | ⟨q, rfl⟩
+  · exact ⟨fun hp => absurd hp (getopt_line_not_failed t a0 r (h0 a0 hh)), fun ⟨x, hx⟩ => by cases hx⟩
+  · exact ⟨fun hp => absurd hp (hno _ _ (by decide) (by decide)), fun ⟨x, hx⟩ => by cases hx⟩
+  · exact ⟨fun hp => absurd hp (hno _ _ (by decide) (by decide)), fun ⟨x, hx⟩ => by cases hx⟩
+  · exact ⟨fun hp => absurd hp (hno _ _ (by decide) (by decide)), fun ⟨x, hx⟩ => by cases hx⟩
+  · exact ⟨fun hp => absurd hp (hno _ _ (by decide) (by decide)), fun ⟨x, hx⟩ => by cases hx⟩
+  · refine ⟨fun _ => ⟨x, rfl⟩, fun _ => ?_⟩
+    cases t <;> exact ⟨32 :: x, by simp [failedPrefix, toolName, Line.render]⟩
+  · refine ⟨fun hp => ?_, fun ⟨x, hx⟩ => by cases hx⟩
+    exfalso
+    cases t <;> simp [failedPrefix, toolName, Line.render, List.cons_prefix_cons] at hp
+  · exact ⟨fun hp => absurd hp (hno _ _ (by decide) (by decide)), fun ⟨x, hx⟩ => by cases hx⟩
+  · exact ⟨fun hp => absurd hp (hno _ _ (by decide) (by decide)), fun ⟨x, hx⟩ => by cases hx⟩
+
+/-- The hypothesis on `argv[0]` is needed: with `argv[0] = "wbxml2xml failed"` the scanner's own
+    complaint about `-z` starts with "wbxml2xml failed:" although nothing was converted. -/
+theorem argv0_hypothesis_needed :
+    failedPrefix .w2x <+: (attIllegal b!"wbxml2xml failed" 122) := by
+  exact ⟨b!" illegal option -- z", by decide⟩
+
+/-! ### non-vacuity: concrete runs through the whole model -/
+
+section Examples
+
+private def lib1 : Lib := { conv := fun _ i => if i == b!"good" then .ok b!"RESULT" else .error 300, errStr := fun _ => b!"bad" }
+private def w1 : World := {
+  stdin := .file b!"good", stdout := .ok, sched := [0, 2],
+  openR := fun p => if p == b!"in" then .file b!"good" else if p == b!"junk" then .file b!"xx" else if p == b!"d" then .dir else .fail,
+  openW := fun p => if p == b!"out" then .ok .ok else if p == b!"full" then .ok (.full 4096) else .fail }
+
+example : NulFree [b!"xml2wbxml", b!"-ko", b!"out", b!"in"] := by unfold NulFree; decide
+
+example : tool .x2w .gnu lib1 w1 [b!"xml2wbxml", b!"in", b!"-ko", b!"out"] =
+    .done ⟨0, [], [.succeeded .x2w], [⟨b!"out", b!"RESULT", true⟩],
+           some (.x2w { keepWs := true }, b!"good")⟩ := by decide
+
+example : tool .w2x .att lib1 w1 [b!"wbxml2xml", b!"-i4", b!"-o", b!"-", b!"-"] =
+    .done ⟨0, b!"RESULT", [.succeeded .w2x], [], some (.w2x { indent := 4 }, b!"good")⟩ := by decide
+
+example : tool .w2x .gnu lib1 w1 [b!"wbxml2xml", b!"-o", b!"out", b!"junk"] =
+    .done ⟨300 % 256, [], [.failed .w2x b!"bad"], [], some (.w2x {}, b!"xx")⟩ := by decide
+
+example : tool .w2x .gnu lib1 w1 [b!"wbxml2xml", b!"-o", b!"nodir/x", b!"in"] =
+    .done ⟨0, [], [.succeeded .w2x, .failedOpenOut b!"nodir/x"], [], some (.w2x {}, b!"good")⟩ := by decide
+
+example : tool .x2w .gnu lib1 w1 [b!"xml2wbxml", b!"-o", b!"full", b!"in"] =
+    .done ⟨0, [], [.succeeded .x2w, .writeError b!"full"], [⟨b!"full", [], false⟩], some (.x2w {}, b!"good")⟩ := by decide
+
+example : tool .x2w .att lib1 w1 [b!"xml2wbxml", b!"-z", b!"in"] =
+    .done ⟨0, [], [.getopt b!"xml2wbxml: illegal option -- z", .help], [], none⟩ := by decide
+
+example : tool .x2w .gnu lib1 w1 [b!"xml2wbxml", b!"d", b!"-n"] =
+    .done ⟨0, [], [.readError b!"-n"], [], none⟩ := by decide
+
+end Examples
+
 end Wbxml.Props.C20
